@@ -456,6 +456,9 @@ def load_database(dbpath, rootdir):
     for command in db:
         # Skip commands that invoke unsupported tools.
         if not command.is_supported():
+            log.warning(
+                f"Ignoring unsupported command for file: {command.filename}",
+            )
             continue
 
         # Files may be specified:
